@@ -192,6 +192,39 @@ JOIN_ENVS = [
 ]
 
 
+def _cross_env(rows, x):
+    return {'txn': {'description': 'AMZN MKTP US ORDER A1', 'amount': fl(20), 'date': datetime.date(2025, 5, 12).toordinal(),
+                    'field': {'ref': enc('A1')}, 'source': 'Amex', 'location': None},
+            'vars': {'x': x, 'k': enc(1)}, 'ds': {'orders': rows}}
+
+
+_D = lambda y, m, d_: enc(datetime.date(y, m, d_))  # noqa: E731
+CROSS_ENVS = [
+    _cross_env([{'date': _D(2025, 5, 12), 'ref': enc('A1'), 'item': enc('a')}, {'date': _D(2025, 7, 1), 'ref': enc('B2'), 'item': enc('b')}], _D(2025, 5, 12)),
+    _cross_env([{'date': enc('06/15/2025'), 'ref': enc('A1'), 'item': enc('a')}, {'date': enc('n/a'), 'ref': enc('B2'), 'item': enc('b')}], enc('06/15/2025')),
+    _cross_env([{'date': _D(2025, 5, 12), 'ref': enc('A1'), 'item': enc('a')}, {'date': enc('06/15/2025'), 'ref': enc('B2'), 'item': enc('b')},
+                {'date': _D(2025, 8, 1), 'ref': enc('A1'), 'item': enc('c')}], enc('2025-05-12')),
+]
+
+
+def cross_eval_corpus():
+    """(expression, order of CROSS_ENVS indices): a comparison against a string literal whose other operand is a date in one
+    evaluation and a raw string in another.  Every evaluation must mean what a fresh one means (the parse tree is shared
+    through the expression cache and must not be changed by an evaluation)."""
+    out = []
+    for lit, order in (('"2025-06-30"', (0, 1, 2, 1)), ('"2025-07-01"', (1, 0, 1, 2)), ('"2025-05-12"', (2, 1, 0))):
+        for op in ('<=', '==', '>'):
+            out += [
+                (('call', 'any', [('comp', '(', ('cmp', 'r.date', [(op, lit)]), [('r', 'orders', [])])]), order),
+                (('call', 'any', [('comp', '(', ('cmp', 'r.date', [(op, lit)]), [('r', 'orders', [('cmp', 'r.ref', [('==', 'field.ref')])])])]), order),
+                (('comp', '[', 'r.item', [('r', 'orders', [('cmp', 'r.date', [(op, lit)])])]), order),
+                (('cmp', 'x', [(op, lit)]), order),
+                (('cmp', lit, [(op, 'x')]), order),
+                (('cmp', ('if', 'k', 'x', 'date'), [(op, lit), (op, lit)]), order),
+            ]
+    return out
+
+
 def rebinding_family():
     """multi-clause and nested comprehensions whose inner iterable is a bare name re-bound by the outer clause
     (outer loop variable over a list of lists; := in the outer clause's condition), and a name re-bound between two
@@ -474,21 +507,42 @@ def same_modulo_error_class(a, b):
 
 
 # ---------------------------------------------------------------------------------------------------
+def run_seq(env, texts, prelude=()):
+    """evaluate `texts` on `env` after the `prelude` (items: a text = same environment, or {'env':…, 'expr':…}), all in ONE
+    process: the expression cache, the regex cache and the shared parse trees are process state"""
+    envs, jobs = [env], []
+    for p in prelude:
+        if isinstance(p, dict):
+            envs.append(p['env'])
+            jobs.append([len(envs) - 1, p['expr']])
+        else:
+            jobs.append([0, p])
+    r = run_impl(IMPL, {'envs': envs, 'jobs': jobs + [[0, x] for x in texts]})
+    return r['results'][len(jobs):], r['log']
+
+
 def run_one(env, text, prelude=()):
-    """evaluate `text` (after the `prelude` texts, in the same process: the expression cache is process state)"""
-    r = run_impl(IMPL, {'envs': [env], 'jobs': [[0, x] for x in prelude] + [[0, text]]})
-    return r['results'][-1], r['log']
+    res, log = run_seq(env, [text], prelude)
+    return res[-1], log
 
 
-def prelude_for(texts, ei, all_jobs):
-    """earlier expressions of this run that differ from one of `texts` only in letter case (they share a cache
-    key if the cache is keyed on a case-normalised string): replayed first, in the same process"""
-    want = {t.lower(): t for t in texts}
+def prelude_for(texts, ei, all_jobs, all_envs=None, upto=None):
+    """earlier evaluations of this run that can share process state with `texts`: the same text up to letter case
+    (a cache keyed on a normalised string), or the very same text on another environment (a shared parse tree)"""
+    want = {t.lower() for t in texts}
     out = []
-    for e, t in all_jobs:
-        if t.lower() in want and t not in texts and t not in out:
-            out.append(t)
-    return out[:6]
+    for e, t in (all_jobs if upto is None else all_jobs[:upto]):
+        if t.lower() not in want:
+            continue
+        if t not in texts:
+            item = t if e == ei or all_envs is None else {'env': all_envs[e], 'expr': t}
+        elif e != ei and all_envs is not None:
+            item = {'env': all_envs[e], 'expr': t}
+        else:
+            continue
+        if item not in out:
+            out.append(item)
+    return out[-6:]
 
 
 def model_one(env, text, out, log):
@@ -543,13 +597,19 @@ def main(tier):
         corr = [(ei, t) for t in small for ei in range(nb)]
     fam = G.comprehension_family()
     if quick:
-        corr += [((i * 7) % nb, t) for i, t in enumerate(fam) if i % 3 == run.seed % 3 or i >= len(fam) - 24]
+        corr += [((i * 7) % nb, t) for i, t in enumerate(fam) if i % 3 == run.seed % 3]
     else:
         corr += [(ei, t) for t in fam for ei in (0, 1, 3, 4)]
-    envs += JOIN_ENVS
-    j0 = len(envs) - len(JOIN_ENVS)
+    envs += JOIN_ENVS + CROSS_ENVS
+    j0 = len(envs) - len(JOIN_ENVS) - len(CROSS_ENVS)
+    x0 = len(envs) - len(CROSS_ENVS)
     reb = rebinding_family()
     corr += [(j0 + d, t) for t in reb for d in range(len(JOIN_ENVS))]
+    # scoping templates and := inside comprehensions: always, on every environment that has rows
+    wal = G.walrus_in_comp_family()
+    corr += [(ei, t) for t in G.scoping_family() + wal for ei in (0, 1, 2, 5, j0)]
+    # the same text on environments whose rows / variables hold dates, raw strings, or both, in both orders
+    corr += [(x0 + d, t) for t, order in cross_eval_corpus() for d in order]
     corr += [(0, e) for _, e, _ in regex_pair_corpus()] + \
             [(0, f'fuzzy({pylit(t)}, {pylit(p)}, {th})') for t, p, th in fuzzy_corpus()]
     n_exh = len(corr)
@@ -584,6 +644,7 @@ def main(tier):
         pyf = [t for i, t in enumerate(pyf) if i % 2 == run.seed % 2 or i >= len(pyf) - 3]
     py_jobs = [[ei, src(t)] for t in pyf for ei in ((0, 1) if quick else (0, 1, 2, 5, nb, nb + 1))]
     py_jobs += [[j0 + d, src(t)] for t in reb for d in range(len(JOIN_ENVS))]
+    py_jobs += [[ei, src(t)] for t in wal for ei in (0, 1, 2, 5, j0)]
 
     all_jobs = corr_jobs + law_jobs + py_jobs
     t0 = time.time()
@@ -627,10 +688,9 @@ def main(tier):
         shrunk_from = None
         if inst.get('trees') and not sig:
             case, shrunk_from = shrink_law(inst, all_envs[inst['env']], case)
-        case['prelude'] = prelude_for(case['exprs'], inst['env'], all_jobs)
+        case['prelude'] = prelude_for(case['exprs'], inst['env'], all_jobs, all_envs, len(corr_jobs) + inst.get('at', 0))
         if shrunk_from:
-            pre = case['prelude']
-            o = run_impl(IMPL, {'envs': [case['env']], 'jobs': [[0, x] for x in pre + case['exprs']]})['results'][len(pre):]
+            o, _ = run_seq(case['env'], case['exprs'], case['prelude'])
         run.violation('law', {'kind': 'counterexample', 'case': case, 'observed': o, 'expected': msg,
                               'obligation': 'c04 law "%s" on the implementation' % inst['law'], 'shrunk_from': shrunk_from,
                               'n_failing_instances': sum(1 for i2, _, _ in law_fail if i2['law'] == inst['law']), 'broken': broken},
@@ -657,7 +717,7 @@ def main(tier):
         ei, tree = corr[i]
         small_tree, n0 = shrink_corr(all_envs[ei], tree)
         text = src(small_tree)
-        prelude = prelude_for([text], ei, all_jobs)
+        prelude = prelude_for([text], ei, all_jobs, all_envs, i)
         out, log = run_one(all_envs[ei], text, prelude)
         run.violation('corr', {'kind': 'counterexample', 'case': {'env': all_envs[ei], 'expr': text, 'prelude': prelude},
                                'observed': out, 'expected': 'the outcome of Expr.Eval.eval_top on the same input (model_vs_impl)',
@@ -748,10 +808,9 @@ def replay(path):
             print(f'VIOLATION property=C04 replay={path}')
             return 1
         return 0
-    pre = case.get('prelude', [])
-    rr = run_impl(IMPL, {'envs': [case['env']], 'jobs': [[0, x] for x in pre + case['exprs']],
-                         'pyeval': [[0, x] for x in case['exprs']] if case['law'] == 'python-construct' else []})
-    outs = rr['results'][len(pre):]
+    outs, _ = run_seq(case['env'], case['exprs'], case.get('prelude', []))
+    rr = {'pyeval': run_impl(IMPL, {'envs': [case['env']], 'jobs': [], 'pyeval': [[0, x] for x in case['exprs']]})['pyeval']
+          if case['law'] == 'python-construct' else []}
     print(json.dumps({'law': case['law'], 'exprs': case['exprs'], 'implementation': outs, 'expected': obj.get('expected')}, indent=1))
     law = case['law']
     if law == 'python-construct':
